@@ -317,18 +317,21 @@ def check(run):
     cases = []
     for _ in range(n):
         desc = sysgen.rand_desc(rng, max_species=3, max_cells=8)
+        if rng.random() < 0.3:
+            sysgen.reassign_space_units(rng, desc)          # the space changes its units system between construction and use
         cases.append({"desc": desc, "ops": rand_ops(rng, desc)})
     items = build_items(cases)
     for it in items:
         d = it["case"]["desc"]
-        run.count("space:" + d["space"]["type"])
+        run.count("space:" + d["space"]["type"] + (":units_reassigned" if d["space"].get("built_in") else ""))
         run.count("species:%d" % len(d["species"]))
         for op, r in zip(it["case"]["ops"], it["obs"]["results"]):
             run.count("op:%s:%s" % (op["op"], "raise" if r[0] == "raise" else "ok"))
         it["nontrivial"] = len(d["species"]) * sysgen.ncells(d) > 1
     run.rule = ("random systems: 1-3 species with scalar / per-environment ('default', omissions) densities and flags, 1-3 environments "
                 "(sometimes the empty default name), grids up to 8 cells with random environment maps and graphs of 1-8 nodes with "
-                "per-node volumes and per-node units; independent unit systems for species, network, space, nodes, system; then 1-10 "
+                "per-node volumes and per-node units; independent unit systems for species, network, space, nodes, system; a third of the spaces "
+                "are built in one units system and given another before use; then 1-10 "
                 "random get/set_state, get/set_chemostat (species by index / label / object, cell by index / tuple / x,y,z object, a few "
                 "invalid addresses and wrong dimensions) and species-edit + regenerate calls. non-trivial = more than one entry")
     core.decide(run, items, IMPORTS, "accept_C13", oracle, shard=60)
